@@ -32,6 +32,18 @@ def main():
                 rc1, out1 = sh("%s -B %s" % (PY, os.path.join(d, "demo.py")), cwd=scratch, env=env, timeout=600)
                 rct, outt = sh("%s -m pytest -q -p no:cacheprovider --timeout=900 tornado --deselect tornado/test/autoreload_test.py --deselect tornado/test/process_test.py 2>&1 | tail -3" % PY, cwd=scratch)
                 tests_ok = " passed" in outt and "failed" not in outt
+                if not tests_ok and " passed" in outt:
+                    # timing-sensitive tests flake on a loaded machine: rerun exactly the failed ones, twice at most
+                    rcf, outf = sh("%s -m pytest -q -p no:cacheprovider --timeout=900 tornado --deselect tornado/test/autoreload_test.py --deselect tornado/test/process_test.py 2>&1 | grep -E '^(FAILED|ERROR) ' | awk '{print $2}'" % PY, cwd=scratch)
+                    failed = [t for t in outf.split() if "::" in t]
+                    still = failed
+                    for _ in range(2):
+                        if not still:
+                            break
+                        rcr, outr = sh("%s -m pytest -q -p no:cacheprovider --timeout=900 %s 2>&1 | tail -15" % (PY, " ".join(still)), cwd=scratch)
+                        still = [t for t in still if ("FAILED " + t) in outr or ("ERROR " + t) in outr]
+                    tests_ok = not still
+                    outt = outt.strip() + " || flaky under load, passed on rerun: %s" % failed if tests_ok else outt + " || still failing: %s" % still
                 ok = rc0 == 0 and rc1 != 0 and tests_ok
                 print("%s demo-without=%d demo-with=%d tests_ok=%s -> %s" % (pid, rc0, rc1, tests_ok, "KEEP" if ok else "REJECT"))
                 if not ok:
@@ -48,7 +60,7 @@ def main():
                 meta = {"property": pid, "id": "%s-%d" % (pid, n), "source": "independent sub-agent given only the property text and a scratch worktree of /repo",
                         "needs_to_manifest": "see notes.md", "summary": notes.strip().split("\n")[0][:300],
                         "confirmed": {"repo_head": head, "demo_exit_without_patch": rc0, "demo_exit_with_patch": rc1,
-                                      "demo_output_with_patch": out1[-400:], "existing_tests": outt.strip().split("\n")[-1],
+                                      "demo_output_with_patch": out1[-400:], "existing_tests": outt.strip().split("\n")[-1][:600],
                                       "ran": ["demo.py on pristine scratch worktree", "git apply patch.diff", "demo.py again",
                                               "pytest tornado (autoreload/process deselected)"], "when": time.strftime("%Y-%m-%d %H:%M")}}
                 json.dump(meta, open(os.path.join(dst, "meta.json"), "w"), indent=1)
